@@ -85,4 +85,40 @@ theorem released_is_permitted (cfg : PointCfg) (scopeClaims : List Str) (request
   obtain ⟨h1, h2, _⟩ := release_upper_bound info _ p hp
   exact ⟨restriction_upper_bound cfg scopeClaims requested p.1 h1, h2⟩
 
+/-! ### which rules apply -/
+
+/-- the ID token of a flow that also returns a code or an access token (any response type other than
+    `id_token` alone) is built with the rules of the ID-token release point only: whatever the client
+    registered for userinfo plays no part -/
+theorem hybrid_id_token_ignores_userinfo_rules (m : ModuleConf) (c1 c2 : ClientConf)
+    (h1 : c1.bsNonEmpty = c2.bsNonEmpty) (h2 : c1.byScope (Wire.lit "id_token") = c2.byScope (Wire.lit "id_token"))
+    (h3 : c1.always (Wire.lit "id_token") = c2.always (Wire.lit "id_token")) :
+    resolvePoint m c1 (Wire.lit "id_token") (secondaryOf (Wire.lit "id_token") false) =
+    resolvePoint m c2 (Wire.lit "id_token") (secondaryOf (Wire.lit "id_token") false) := by
+  simp only [secondaryOf, resolvePoint]
+  simp [h1, h2, h3]
+
+/-- a release point never takes rules from another point unless that point is its secondary -/
+theorem no_secondary_no_foreign_rules (m : ModuleConf) (cl : ClientConf) (point : Str) :
+    (resolvePoint m cl point none).always = (if m.perClient then cl.always point else m.always) := by
+  simp only [resolvePoint]
+  split <;> simp
+
+/-- with per-client rules switched off the client record plays no part at all -/
+theorem module_rules_when_per_client_off (m : ModuleConf) (c1 c2 : ClientConf) (point : Str) (sec : Option Str)
+    (h : m.perClient = false) : resolvePoint m c1 point sec = resolvePoint m c2 point sec := by
+  simp [resolvePoint, h]
+
+/-- audience enforcement: a requester outside the token's audience sees the token only if
+    enforcement is off for THIS requester (its own record, else the endpoint's setting) -/
+theorem aud_gate_sound (e : Bool) (cs : Option Bool) (inAud : Bool) (h : audGate e cs inAud = true) :
+    inAud = true ∨ cs.getD e = false := by
+  simp only [audGate, Bool.or_eq_true, Bool.not_eq_true'] at h
+  rcases h with h | h
+  · exact Or.inr h
+  · exact Or.inl h
+
+/-- … in particular, with enforcement on at the endpoint and no setting of its own, nothing -/
+theorem outsider_sees_nothing : audGate true none false = false := rfl
+
 end Idpy.Props.C07
